@@ -44,6 +44,41 @@ def run_one(args):
         f.write(" ".join(str(x) for x in instgen.encode(inst, perm)) + "\n" + "\n".join(toks) + "\n")
     mout = os.path.join(d, "c%d.chk" % k)
     res["dstatus"] = lib.run_driver("schedcheck", mpath, mout, timeout=600)
+    # the model of the neighbourhood (Swaps.v over Schedule.v) replays the walk: start state, candidate counts, the
+    # dumped candidates and every successor must be equal
+    dumped = [(int(l.split()[1]), int(l.split()[2])) for l in impl if l.startswith("CAND ")]
+    mcf = []
+    on = False
+    for l in impl:
+        if l.startswith("SCHED mcf"):
+            on = True
+        if on:
+            mcf.append(l)
+        if on and l == "END":
+            break
+    m2 = os.path.join(d, "c%d.mng" % k)
+    with open(m2, "w") as f:
+        f.write(" ".join(str(x) for x in instgen.encode(inst, perm)) + "\n%d %s\n%d %s\n" % (
+            len(walk), " ".join(map(str, walk)), len(dumped), " ".join("%d %d" % x for x in dumped)) + "\n".join(mcf) + "\n")
+    m2out = os.path.join(d, "c%d.model" % k)
+    st2 = lib.run_driver("neighmodel", m2, m2out, timeout=900)
+
+    def norm(ls):
+        out = []
+        for l in ls:
+            if l.startswith("#"):
+                continue
+            if l.startswith("CAND "):
+                l = " ".join(l.split()[:3])
+            out.append(l)
+        return out
+    res["model_diff"] = None
+    if st2 != "OK":
+        res["model_diff"] = "driver: " + st2[:200]
+    else:
+        fd = lib.first_diff(norm(impl), norm(lib.read_lines(m2out)))
+        if fd:
+            res["model_diff"] = "line %d: impl=[%s] model=[%s]" % (fd[0], fd[1][:300], fd[2][:300])
     ci = 0
     for l in lib.read_lines(mout):
         p = l.split()
